@@ -521,10 +521,30 @@ def coq_example_cases():
     toks7 = [b"--term", b"X", b";", b"F", b"-v"]
     exp7 = collections.OrderedDict([(b"t", {"occ": [[b"X"]], "idx": [2]}), (b"f", {"occ": [[b"F"]], "idx": [3]}),
                                     (b"v", {"occ": [[b"1"]], "idx": [4]})])
+    # UnparseYExamples.v (C02_unparse_y_nonvacuous, C02_unparse_tva_nonvacuous): last(true) behind a multiple positional,
+    # the values after `--`, a trailing_var_arg run
+    yc = {"name": b"p", "args": [
+        arg(b"v", short="v", action="count"), arg(b"o", long=b"opt", action="set"),
+        arg(b"f", num=(1, None), action="append"),
+        arg(b"c", num=(1, None), action="append", term=b";", flags={"last"})],
+        "groups": [], "subs": [], "settings": [], "aliases": []}
+    toks8 = [b"-v", b"A", b"B", b"--opt", b"X", b"--", b"-a", b"--", b"run"]
+    exp8 = collections.OrderedDict([
+        (b"v", {"occ": [[b"1"]], "idx": [1]}), (b"f", {"occ": [[b"A", b"B"]], "idx": [2, 3]}),
+        (b"o", {"occ": [[b"X"]], "idx": [5]}), (b"c", {"occ": [[b"-a", b"--", b"run"]], "idx": [6, 7, 8]})])
+    toks9 = [b"-v", b"--", b"R", b"S"]
+    exp9 = collections.OrderedDict([(b"v", {"occ": [[b"1"]], "idx": [1]}), (b"c", {"occ": [[b"R", b"S"]], "idx": [2, 3]})])
+    tc = {"name": b"p", "args": [arg(b"v", short="v", action="count"), arg(b"c"), arg(b"a", num=(0, None), flags={"tva"})],
+          "groups": [], "subs": [], "settings": [], "aliases": []}
+    toks10 = [b"-v", b"C", b"a1", b"--x", b"-v", b"--", b"z"]
+    exp10 = collections.OrderedDict([
+        (b"v", {"occ": [[b"1"]], "idx": [1]}), (b"c", {"occ": [[b"C"]], "idx": [2]}),
+        (b"a", {"occ": [[b"a1", b"--x", b"-v", b"--", b"z"]], "idx": [3, 4, 5, 6, 7]})])
     out = []
     for c, toks, lv in ((one, toks1, [(exp1, None)]), (two, toks2, exp2), (one, toks3, [(exp3, None)]),
                         (order, toks4, [(exp4, None)]), (osc, toks5, [(exp5, None)]), (xc, toks6, exp6),
-                        (xc1, toks7, [(exp7, None)])):
+                        (xc1, toks7, [(exp7, None)]), (yc, toks8, [(exp8, None)]), (yc, toks9, [(exp9, None)]),
+                        (tc, toks10, [(exp10, None)])):
         argv = [b"p"] + toks
         base = gen_cmd.cmd_sx(c)
         body = base[:-1] + " (x-expect %s %s))" % (guard(base, argv), expect_sx(lv))
